@@ -172,3 +172,45 @@ Proof.
     + left. exact E2.
     + right. right. eauto.
 Qed.
+
+(* ------------------------------------------------------------------ the other two HEVC pipelines *)
+From V.c16 Require Import C16SeiNaluModel C16SeiNaluProofs C16HevcPipeModel.
+From V.c16 Require C16ConfRecModel C16ConfRecProofs.
+
+Lemma hevc_sps_and_sei_total a rest :
+  hevc_sps_and_sei a rest = Err \/
+  exists n miss, hevc_sps_and_sei a rest = Ok (n, miss) /\ 2 * n <= lenN rest.
+Proof. unfold hevc_sps_and_sei. apply hevc_parse_sei_nalu_total. Qed.
+
+Lemma parse_hsps_list_wf l : Forall hsps_wf (parse_hsps_list l).
+Proof.
+  unfold parse_hsps_list. induction l as [|u t IH]; cbn [flat_map]; [constructor|].
+  apply Forall_app. split; [|exact IH].
+  destruct (c16_hparse_sps_total u) as [E|(s & E & Hw)]; rewrite E; [constructor|constructor; [exact Hw|constructor]].
+Qed.
+
+Lemma parse_hpps_list_wf spss : forall l ps, parse_hpps_list spss l = Some ps -> Forall hpps_wf ps.
+Proof.
+  induction l as [|u t IH]; intros ps; cbn [parse_hpps_list].
+  - intros E. inversion E. constructor.
+  - destruct (c16_hparse_pps_total (hsps_has spss) u) as [E|[E|(p & E & Hw)]]; rewrite E.
+    + destruct (parse_hpps_list spss t) as [ps'|]; [|discriminate]. intros X. inversion X. subst. cbn [app]. apply IH. reflexivity.
+    + discriminate.
+    + destruct (parse_hpps_list spss t) as [ps'|]; [|discriminate]. intros X. inversion X. subst.
+      cbn [app]. constructor; [exact Hw|apply IH; reflexivity].
+Qed.
+
+Lemma hevc_confrec_and_slice_total recb rest :
+  hevc_confrec_and_slice recb rest = Err \/ hevc_confrec_and_slice recb rest = OutOfFuel \/
+  exists h, hevc_confrec_and_slice recb rest = Ok h.
+Proof.
+  unfold hevc_confrec_and_slice.
+  destruct (C16ConfRecProofs.hevc_confrec_total recb) as [E|(r & t & E & _)]; rewrite E; [left; reflexivity|].
+  cbv zeta. destruct (parse_hpps_list _ _) as [ppss|] eqn:Ep; [|right; left; reflexivity].
+  destruct (c16_hparse_slice_total (hsps_lookup (parse_hsps_list (hevc_rec_nalus r 33))) (hpps_lookup ppss) rest)
+    as [E2|(h & E2)].
+  - apply hsps_lookup_wf, parse_hsps_list_wf.
+  - apply hpps_lookup_wf. eapply parse_hpps_list_wf. exact Ep.
+  - left. exact E2.
+  - right. right. eauto.
+Qed.
